@@ -1152,25 +1152,8 @@ func (e *Exec) stdlibCall(st *State, call *ast.CallExpr, fn *types.Func, key str
 }
 
 func (e *Exec) needTzLz() {
-	if e.declared["ax:tzlz"] {
-		return
-	}
-	e.mark("ax:tzlz")
-	var b strings.Builder
-	// bvtz(w) = k  <=>  bit k set and bits below clear; 64 for zero.  Given as 65 ground-free implications over extract.
-	b.WriteString("(assert (forall ((w (_ BitVec 64))) (! (and (<= 0 (bvtz w)) (<= (bvtz w) 64) (= (= (bvtz w) 64) (= w #x0000000000000000))")
-	b.WriteString(" (=> (not (= w #x0000000000000000)) (and (not (= (bvand w (bvshl #x0000000000000001 (shamt (bvtz w)))) #x0000000000000000))")
-	b.WriteString(" (= (bvand w (bvsub (bvshl #x0000000000000001 (shamt (bvtz w))) #x0000000000000001)) #x0000000000000000))))")
-	b.WriteString(" :pattern ((bvtz w)))))")
-	e.needShamt()
-	e.globalAxiom(b.String())
-	var c strings.Builder
-	c.WriteString("(assert (forall ((w (_ BitVec 64))) (! (and (<= 0 (bvlz w)) (<= (bvlz w) 64) (= (= (bvlz w) 64) (= w #x0000000000000000))")
-	c.WriteString(" (=> (not (= w #x0000000000000000)) (and (not (= (bvand w (bvlshr #x8000000000000000 (shamt (bvlz w)))) #x0000000000000000))")
-	c.WriteString(" (= (bvlshr w (shamt (- 64 (bvlz w)))) #x0000000000000000))))")
-	c.WriteString(" :pattern ((bvlz w)))))")
-	e.globalAxiom(c.String())
-	e.note("axiom", "math/bits.TrailingZeros64/LeadingZeros64/Len64: position of the lowest/highest set bit (64 for zero)")
+	e.needBitLib()
+	e.note("axiom", "math/bits.TrailingZeros64/LeadingZeros64/Len64: position of the lowest/highest set bit (64 for zero), stated over bit(w,k) in the lemma library")
 }
 
 func (e *Exec) stdlibIface(st *State, call *ast.CallExpr, fn *types.Func, iname string, recv TV, args []TV) ([]Term, bool) {
